@@ -351,6 +351,43 @@ def rule_M(prog, chk):
     chk.floor("M", n, 15)
 
 
+RESCALED_BY_CONTRACT = {
+    ("Model::_deserialize", "aniso_ranges"): "the writer stores CovAniso::getAnisoCoeffs() = ranges / largest range; the reader multiplies back by the range read just "
+                                             "before and hands RANGES to setRanges()",
+}
+
+
+def rule_T(prog, chk):
+    """T - a reader hands over what it read.  A local filled by `_recordRead` and then rescaled (`v *= other`) before it reaches the object
+    is no longer what the writer took from the object, unless the writer stores the quotient (one confirmed case, listed above): the
+    anisotropy coefficients of a moving neighbourhood, multiplied by the radius at reload, gave semi-axes radius^2 * coefficient."""
+    def strip(e):
+        while e is not None and e["k"] in ("Cast", "Paren") and e.get("c"):
+            e = e["c"][0]
+        return e
+    n = 0
+    for c, w, r in pairs(prog):
+        read = {}
+        for x in r.walk():
+            if x["k"] in ("Call", "MCall") and (x.get("callee") or "").split("::")[-1].split("<")[0] in ("_recordRead", "_recordReadVec", "_recordReadVecInPlace"):
+                for a in call_args(x)[2:]:
+                    for z in walk(a) if a is not None else []:
+                        if z["k"] == "DeclRefExpr" and z.get("dk") == "var":
+                            read[z["d"]] = z["n"]
+        for d, name in sorted(read.items(), key=lambda kv: kv[1]):
+            n += 1
+            resc = [x for x in r.walk() if x["k"] in ("CompoundAssign", "Assign") and x.get("op") in ("*=", "/=", "+=", "-=") and
+                    any(z["k"] == "DeclRefExpr" and z.get("d") == d for z in walk(x["c"][0]))]
+            reason = RESCALED_BY_CONTRACT.get((r.name, name))
+            ok = not resc or reason is not None
+            if resc:
+                chk.analysed(r)
+            chk.ob("T", "%s: `%s` reaches the object as it was read" % (r.name, name), r.loc(resc[0]) if resc else r.loc(), ok,
+                   detail=None if ok else "`%s` rescales the value read while %s writes the value of the object as it is: the reloaded object differs from "
+                   "the one saved" % (show(resc[0]), w.name), key="T|%s|%s" % (r.name, name), nontrivial=bool(resc))
+    chk.floor("T", n, 100)
+
+
 def rule_B(prog, chk):
     """B - sibling builders establish the same state.  The methods `buildFromX` / `resetFromX` / `initFromX` of one class are alternative
     ways of putting the object in its built state (a reader picks the one that matches what the file holds): a state member that all
@@ -504,6 +541,7 @@ def main(tier):
     c08_order.rule_O(oprog, chk, 2)
     rule_K(prog, chk)
     rule_M(prog, chk)
+    rule_T(prog, chk)
     rule_B(oprog, chk)
     rule_D(prog, chk)
     return chk.finish()
